@@ -80,6 +80,20 @@ func genConcCase(t *rapid.T, free bool) ConcCase {
 		}
 		c.Ctl = append(c.Ctl, a)
 	}
+	if !free {
+		// short application write deadlines (on the fake clock they pass while
+		// the writer waits for the connection): they bound the transport write,
+		// not the writer's place in the queue, and losing a frame to them while
+		// later ones are accepted would tear the message
+		for i := range c.Steps {
+			if c.Steps[i].Op == "deadline" && rapid.Bool().Draw(t, "short_write_deadline") {
+				c.Steps[i].DeadlineMs = rapid.SampledFrom([]int{1, 50, 500}).Draw(t, "write_deadline_ms")
+			}
+		}
+		if len(c.Steps) > 1 && rapid.IntRange(0, 2).Draw(t, "leading_short_deadline") == 0 {
+			c.Steps = append([]WStep{{Op: "deadline", DeadlineMs: rapid.SampledFrom([]int{1, 50, 500}).Draw(t, "write_deadline_ms0")}}, c.Steps...)
+		}
+	}
 	c.Pings = rapid.SliceOfN(rapid.IntRange(4, 125), 0, 3).Draw(t, "pings")
 	switch rapid.IntRange(0, 5).Draw(t, "peerclose") {
 	case 0:
@@ -480,6 +494,9 @@ func judgeConc(c ConcCase, r *concRun, o *Obs) error {
 			}
 		}
 		r.appClosed = true // from here on only the lenient (prefix) wire rules apply
+	}
+	if call := r.gc.ReadDeadlineTouched(); call != "" {
+		return fmt.Errorf("%s was called on the transport although nobody in this scenario sets a read deadline: a write call changed the reading goroutine's deadline", call)
 	}
 	if dlDuring := r.gc.DeadlineDuringWrite(); dlDuring != "" {
 		return fmt.Errorf("%s: that frame is no longer written under the deadline last given to SetWriteDeadline (on a net.Conn the pending Write now fails at the foreign deadline and poisons the connection)", dlDuring)
